@@ -1,12 +1,10 @@
-module verifharness
+module verifracecheck
 
 go 1.18
 
 require (
-	github.com/koykov/clock v1.1.4
 	github.com/koykov/dyntpl v0.0.0
 	github.com/koykov/inspector v1.4.6
-	github.com/koykov/x2bytes v1.0.2
 )
 
 require (
@@ -14,7 +12,9 @@ require (
 	github.com/koykov/bytebuf v1.0.7 // indirect
 	github.com/koykov/byteconv v1.0.0 // indirect
 	github.com/koykov/byteseq v1.0.1 // indirect
+	github.com/koykov/clock v1.1.4 // indirect
 	github.com/koykov/entry v1.0.2 // indirect
+	github.com/koykov/x2bytes v1.0.2 // indirect
 	golang.org/x/sys v0.10.0 // indirect
 	golang.org/x/tools v0.11.1 // indirect
 )
